@@ -16,7 +16,12 @@
 (*     item  = [name |-> bytes, declared |-> STRING ("" = undeclared),    *)
 (*              len |-> Nat, head |-> "text" | "bin" | "png" | "pdf" | "gif",              *)
 (*              nul |-> Nat (position of a NUL byte in "text", 0 = none),  *)
-(*              chunk |-> Nat (size of the source's first Read; 0 = all)]  *)
+(*              chunk |-> Nat (size of the source's first Read; 0 = all),  *)
+(*              seekable |-> BOOLEAN, skip |-> Nat (bytes of the source    *)
+(*              before the position at which it is handed over; len, head, *)
+(*              nul describe what it yields from there)]                   *)
+(*   fault   : BOOLEAN     the payload reader fails once, transiently      *)
+(*   debug   : BOOLEAN     Runtime.Debug (the request is dumped)           *)
 (*   auth    : BOOLEAN     an auth writer is present                       *)
 (*   k       : Nat         it calls GetBody k times                        *)
 (* Contents are identified by tokens `ids` (MC: indices; TV: len + SHA-256 *)
@@ -143,7 +148,10 @@ CodeFilePart(in, ids, ref) ==
       filename |-> wn(IF Mutant = "nobase" THEN it.name ELSE BaseName(it.name)),
       ctype    |-> IF it.declared # "" /\ Mutant # "nodeclared" THEN it.declared ELSE CodeSniff(it),
       len      |-> it.len,
-      cid      |-> ids.files[ref[1]][ref[2]]]
+      \* the part is  sniffed bytes ++ rest of the reader  = what the reader yields from its current position;
+      \* mutant "rewindseek": a seekable source is rewound to offset 0, so bytes before its position are sent too
+      cid      |-> IF Mutant = "rewindseek" /\ it.seekable /\ it.skip > 0
+                   THEN <<0, 0>> ELSE ids.files[ref[1]][ref[2]]]
 
 CodeFileParts(in, ids) ==
   LET refs == FileRefs(in.files, 1)
@@ -156,11 +164,19 @@ CodeFieldPairs(in) ==
       qs == IF IsMultipart(in) THEN [i \in 1..Len(ps) |-> [k |-> IF WireName(ps[i].k) = <<>> THEN <<>> ELSE WireName(ps[i].k)[1], v |-> ps[i].v]] ELSE ps
   IN IF Mutant = "dropfield" /\ qs # <<>> THEN Tail(qs) ELSE qs
 
-\* the getBody override: state [streaming, copied, buf, stream, shown]
+\* the getBody override: state [streaming, copied, bodyIsBuf, buf, stream, shown, fault, err]
 \* streaming: the request body is not r.buf (reader payload or multipart pipe)
+\* fault: the stream fails ONCE (transiently) after delivering `fault` more units (-1 = never)
+TakeU(s, n) == SubSeq(s, 1, n)
+DropU(s, n) == SubSeq(s, n + 1, Len(s))
 GetBodyOnce(s) ==
   IF s.streaming /\ ~s.copied
-  THEN IF Mutant = "earlybuf"
+  THEN IF s.fault >= 0 /\ s.fault < Len(s.stream)
+       THEN \* io.Copy fails half way: the prefix is in r.buf, GetBody returns nil and copyErr makes buildHTTP fail
+            \* ("error retrieving the response body"); mutant "shadowcopyerr": the error is lost, the build goes on
+            [s EXCEPT !.buf = s.buf \o TakeU(s.stream, s.fault), !.stream = DropU(s.stream, s.fault), !.copied = TRUE,
+                      !.fault = -1, !.shown = Append(@, <<>>), !.err = (Mutant # "shadowcopyerr")]
+       ELSE IF Mutant = "earlybuf"
        THEN [s EXCEPT !.shown = Append(@, s.buf), !.copied = TRUE, !.buf = s.buf \o s.stream, !.stream = <<>>, !.bodyIsBuf = TRUE]
        ELSE [s EXCEPT !.buf = s.buf \o s.stream, !.stream = <<>>, !.copied = TRUE,     \* io.Copy(r.buf, body); close
                       !.bodyIsBuf = (Mutant # "bodynotswitched"),                      \* body = r.buf
@@ -170,12 +186,21 @@ GetBodyOnce(s) ==
 RECURSIVE GetBodyTimes(_, _)
 GetBodyTimes(s, k) == IF k = 0 THEN s ELSE GetBodyTimes(GetBodyOnce(s), k - 1)
 
-\* content: the body as a sequence of abstract units
-CodeAuth(in, streaming, content) ==
+\* content: the body as a sequence of abstract units; fault as above
+\* Runtime.Debug: httputil.DumpRequestOut(req, true) drains the body and puts a copy back - nothing changes.
+\* mutant "debuglategetbody": the dump calls request.GetBody() after http.NewRequest captured the body reader
+CodeAuth(in, streaming, content, fault) ==
   LET s0 == [streaming |-> streaming, copied |-> FALSE, bodyIsBuf |-> ~streaming,
-             buf |-> IF streaming THEN <<>> ELSE content, stream |-> IF streaming THEN content ELSE <<>>, shown |-> <<>>]
+             buf |-> IF streaming THEN <<>> ELSE content, stream |-> IF streaming THEN content ELSE <<>>, shown |-> <<>>,
+             fault |-> IF streaming THEN fault ELSE -1, err |-> FALSE]
       s1 == IF in.auth THEN GetBodyTimes(s0, in.k) ELSE s0
-  IN [shown |-> s1.shown, sent |-> IF s1.bodyIsBuf THEN s1.buf ELSE s1.stream]
+      late == in.debug /\ in.auth /\ Mutant = "debuglategetbody"
+      s2 == IF late THEN GetBodyOnce(s1) ELSE s1
+      \* what the transport reads: the reader captured when the request was created
+      sent == IF s1.bodyIsBuf THEN s2.buf ELSE s2.stream
+  IN [shown |-> s1.shown, sent |-> sent,
+      \* a fault still pending when the transport reads the stream fails the send
+      err |-> s1.err \/ (s2.fault >= 0 /\ ~s1.bodyIsBuf /\ s2.fault < Len(s2.stream))]
 
 CodeBody(in, ids) ==
   LET kind == CodeKind(in) IN
@@ -267,6 +292,10 @@ WhyBody(in, ids, o) ==
            strip(p) == [field |-> p.field, filename |-> p.filename, len |-> p.len, cid |-> p.cid]
        IN IF BagOf([i \in 1..Len(o.parts) |-> strip(o.parts[i])]) = BagOf([i \in 1..Len(exp) |-> strip(exp[i])])
           THEN "part-content-type" ELSE "file-parts"
+
+\* a payload reader that fails may make the call fail; if the call succeeds everything above holds
+\* (in particular: what auth saw = what is sent = the whole payload)
+MayFail(in) == in.fault
 
 \* what auth saw is what is sent, however many times it asks
 AuthOK(in, shown, sent) ==
